@@ -228,6 +228,23 @@ func (c *Ctx) merge2(a, b *State) *State {
 }
 
 func (c *Ctx) joinVal(cond, x, y *Term, prefix string) *Term {
+	if same(x, y) {
+		return x
+	}
+	// struct and slice values are merged component-wise (after eta-expansion), so that selectors applied to the
+	// merged value fold away and unchanged components stay syntactically unchanged
+	if si, ok := c.structs[x.Sort]; ok && len(si.Fields) > 0 && len(si.Fields) <= 12 {
+		args := make([]*Term, len(si.Fields))
+		for i := range si.Fields {
+			args[i] = c.joinVal(cond, c.fieldGet(x, si, i), c.fieldGet(y, si, i), prefix)
+		}
+		return App(si.Ctor, si.Sort, args...)
+	}
+	if sl, ok := c.slices[x.Sort]; ok {
+		ln := c.joinVal(cond, c.sliceLen(x), c.sliceLen(y), prefix)
+		arr := c.joinVal(cond, c.sliceArr(x), c.sliceArr(y), prefix)
+		return App(sl.Ctor, x.Sort, ln, arr)
+	}
 	t := Ite(cond, x, y)
 	if t.Op != "ite" {
 		return t
